@@ -18,7 +18,16 @@ var taskKinds = []struct {
 func genSched(r *Rng, phase string) []*Scenario {
 	nd := r.Range(1, 4)
 	s := &Scenario{Property: "C19", Phase: phase}
+	card := r.Chance(0.12) // a scenario whose documents carry many distinct keys
 	for i := 0; i < nd; i++ {
+		if card {
+			d := cardinality(r)
+			if len(d) > 1500 {
+				d = d[:1500]
+			}
+			s.Docs = append(s.Docs, d)
+			continue
+		}
 		s.Docs = append(s.Docs, genDoc(r, []int{120, 300, 300, 700}[r.Intn(4)]))
 	}
 	s.Doc = s.Docs[0]
